@@ -1192,3 +1192,98 @@ TWINS["C11_twin_any_form"] = ("C11", [(H, """        for module in self.modules:
             module_name == module or module_name.startswith(f"{module}.")
             for module in self.modules
         )""")])
+
+# ------------------------------------------------------------------------- C01
+SEEDS["C01_eval_on_live_memo"] = ("C01", [(A, "                eval_size = eval(elem, single_memo.copy())", "                eval_size = eval(elem, single_memo)")], "C01.3")
+SEEDS["C01_slice_disagreement"] = ("C01", [(A, "                    variadic_memo[name] = (broadcastable, obj.shape[i:j])", "                    variadic_memo[name] = (broadcastable, obj.shape[i:])")], "C01.4")
+SEEDS["C01_broadcast_without_size_one"] = ("C01", [(A, "        elif cls_dim.broadcastable and obj_size == 1:", "        elif cls_dim.broadcastable:")], "C01.2")
+SEEDS["C01_fixed_less_than"] = ("C01", [(A, "            if cls_dim.size != obj_size:", "            if cls_dim.size < obj_size:")], "C01.2")
+SEEDS["C01_nameerror_returns_message"] = ("C01", [(A, """            except NameError as e:
+                raise AnnotationError(
+                    f"Cannot process symbolic axis '{cls_dim.elem}' as "
+                    "some axis names have not been processed. "
+                    "Have you applied the `jaxtyped` decorator? "
+                    "In practice you should usually only use symbolic axes in "
+                    "annotations for return types, referring only to axes "
+                    "annotated for arguments."
+                ) from e""", """            except NameError:
+                return f"cannot evaluate {cls_dim.elem}\"""")], "C01.3")
+SEEDS["C01_fstring_eval_hoisted"] = ("C01", [(A, """            try:
+                # Support f-string syntax.
+                # https://stackoverflow.com/a/53671539/22545467
+                elem = eval(f"f'{cls_dim.elem}'", arg_memo.copy())""", """            elem = eval(f"f'{cls_dim.elem}'", arg_memo.copy())
+            try:""")], "C01.3")
+SEEDS["C01_suffix_slice_mismatch"] = ("C01", [(A, "                    cls.dims[j:], obj.shape[j:], single_memo, arg_memo", "                    cls.dims[j:], obj.shape[i:], single_memo, arg_memo")], "C01.4")
+SEEDS["C01_rank_test_strict"] = ("C01", [(A, "            if len(obj.shape) < len(cls.dims) - 1:", "            if len(obj.shape) < len(cls.dims):")], "C01.6")
+SEEDS["C01_rank_test_at_least"] = ("C01", [(A, "            if len(obj.shape) != len(cls.dims):", "            if len(obj.shape) < len(cls.dims):")], "C01.6")
+SEEDS["C01_named_get_falsy"] = ("C01", [(A, """            try:
+                cls_size = single_memo[name]
+            except KeyError:
+                single_memo[name] = obj_size
+            else:
+                if cls_size != obj_size:
+                    return f"the size of dimension {cls_dim.name} is {obj_size} which does not equal the existing value of {cls_size}"  # noqa: E501""", """            cls_size = single_memo.get(name)
+            if not cls_size:
+                single_memo[name] = obj_size
+            elif cls_size != obj_size:
+                return f"the size of dimension {cls_dim.name} is {obj_size} which does not equal the existing value of {cls_size}"  # noqa: E501""")], "C01.5")
+SEEDS["C01_refinement_skipped_when_unchanged"] = ("C01", [(A, """                        variadic_memo[name] = (broadcastable, broadcast_shape)
+                    else:""", """                        if broadcast_shape != prev_shape:
+                            variadic_memo[name] = (broadcastable, broadcast_shape)
+                    else:""")], "C01.5")
+SEEDS["C01_refinement_keeps_old_flag"] = ("C01", [(A, """                        variadic_memo[name] = (broadcastable, broadcast_shape)
+                    else:""", """                        variadic_memo[name] = (prev_broadcastable, broadcast_shape)
+                    else:""")], "C01.5")
+SEEDS["C01_new_kind_unhandled"] = ("C01", [(A, """                if variadic:
+                    elem = _anonymous_variadic_dim
+                else:
+                    elem = _anonymous_dim""", """                if variadic:
+                    elem = _anonymous_variadic_dim
+                else:
+                    elem = _AnyDim()"""), (A, "_anonymous_dim = object()", "_anonymous_dim = object()\n\n\nclass _AnyDim:\n    broadcastable = False\n")], "C01.1")
+SEEDS["C01_broadcast_arm_after_fixed"] = ("C01", [(A, """        elif cls_dim.broadcastable and obj_size == 1:
+            pass
+        elif type(cls_dim) is _FixedDim:
+            if cls_dim.size != obj_size:
+                return f"the dimension size {obj_size} does not equal {cls_dim.size} as expected by the type hint"  # noqa: E501""", """        elif type(cls_dim) is _FixedDim:
+            if cls_dim.size != obj_size:
+                return f"the dimension size {obj_size} does not equal {cls_dim.size} as expected by the type hint"  # noqa: E501
+        elif cls_dim.broadcastable and obj_size == 1:
+            pass""")], "C01.2")
+TWINS["C01_twin_isinstance_dispatch"] = ("C01", [(A, "        elif type(cls_dim) is _FixedDim:", "        elif isinstance(cls_dim, _FixedDim):")])
+SEEDS["C13_fstring_eval_hoisted"] = ("C13", [(A, """            try:
+                # Support f-string syntax.
+                # https://stackoverflow.com/a/53671539/22545467
+                elem = eval(f"f'{cls_dim.elem}'", arg_memo.copy())""", """            elem = eval(f"f'{cls_dim.elem}'", arg_memo.copy())
+            try:""")], "C13.6")
+
+# ------------------------------------------------------------------------- C02
+SEEDS["C02_return_check_in_fresh_context"] = ("C02", [(D, """                    kwargs[output_name] = out
+                    try:
+                        full_fn(*args, **kwargs)""", """                    kwargs[output_name] = out
+                    push_shape_memo(bound.arguments)
+                    try:
+                        full_fn(*args, **kwargs)""")], "C02.1")
+SEEDS["C02_param_check_positional_only"] = ("C02", [(D, """                try:
+                    param_fn(*args, **kwargs)
+                except AnnotationError:""", """                try:
+                    param_fn(*bound.args, **bound.kwargs)
+                except AnnotationError:""")], "C02.2")
+SEEDS["C02_param_signature_keeps_return"] = ("C02", [(D, "            param_signature = full_signature.replace(return_annotation=Any)", "            param_signature = full_signature")], "C02.3")
+SEEDS["C02_dataclass_init_other_checker"] = ("C02", [(D, "            fn.__init__ = jaxtyped(fn.__init__, typechecker=typechecker)", "            fn.__init__ = jaxtyped(fn.__init__, typechecker=None)")], "C02.3")
+SEEDS["C02_full_check_skipped_for_any"] = ("C02", [(D, """                    kwargs[output_name] = out
+                    try:
+                        full_fn(*args, **kwargs)""", """                    kwargs[output_name] = out
+                    try:
+                        if out is not None:
+                            full_fn(*args, **kwargs)""")], "C02.1")
+SEEDS["C02_refinement_keeps_old_flag"] = ("C02", [(A, """                        variadic_memo[name] = (broadcastable, broadcast_shape)
+                    else:""", """                        variadic_memo[name] = (prev_broadcastable, broadcast_shape)
+                    else:""")], "C02.4")
+SEEDS["C02_array_no_restore_on_fail"] = ("C02", [(A, ARR_FAIL, """        else:
+            return check""")], "C02.5")
+SEEDS["C02_kwonly_kind_dropped"] = ("C02", [(D, """        elif p.kind == inspect.Parameter.KEYWORD_ONLY:
+            key.append(p)
+""", "")], "C02.3")
+SEEDS["C02_impl_wrong_output_value"] = ("C02", [(D, "                    kwargs[output_name] = out\n", "                    kwargs[output_name] = bound\n")], "C02.2")
+TWINS["C02_twin_noop"] = ("C02", [(D, "            param_signature = full_signature.replace(return_annotation=Any)", "            param_signature = full_signature.replace(return_annotation=Any)  # parameters only")])
